@@ -204,6 +204,7 @@ def _alarm(signum, frame):
 def execute(profile, plan, keep_lines=False, watchdog=60):
     """Execute one plan in a fresh world.  Pure function of (plan, PYTHONHASHSEED, code)."""
     res = RunResult()
+    profile = profile.__class__()      # no state may leak from one run into the next
     world = World(profile, plan)
     old = signal.signal(signal.SIGALRM, _alarm)
     signal.setitimer(signal.ITIMER_REAL, watchdog)
